@@ -456,6 +456,12 @@ func EnvAlts(v1, v2 int64, scale int64, zero, negative string) []Alt {
 		mk("non-numeric", "abc", 0, "invalid"),
 		mk("huge", HugeLiteral, 0, "invalid"),
 		{Class: "empty", Present: true, Env: ""},
+		// numeric TEXT: the variables hold decimal integers. A zero-padded decimal keeps its decimal
+		// meaning or is ignored (never read in another base); spellings that only a base-0 / Go-literal
+		// parser accepts are unparsable
+		mk("zero-padded decimal", "00"+fmt.Sprint(v1), v1, "unspec"),
+		mk("hex literal", "0x1F", 0, "invalid"),
+		mk("digit separators", "1_0", 0, "invalid"),
 	}
 }
 
